@@ -46,7 +46,8 @@ def generate(rng, tier):
     for regime in ("K0", "K1"):
         for _ in range(n * 4):
             recs = rand_records(rng, regime, nseg=rng.choice([1, 2, 3]), span=8,
-                                tracks=["0", "1", "2", "x", 0, 1, "T0", "T1", "A"])
+                                tracks=(["0", "1", "2", "x", 0, 1, "T0", "T1", "A"] if rng.random() < 0.6 else
+                                        ["00", "01", "1", "0", "T00", "T01", "007", "2", 2, "T1", "-1", "+1", " 1"]))
             s = rng.choice(recs)[0] if recs and rng.random() < 0.85 else gen.rand_segment(rng, regime, span=8)
             cases.append({"k": "newtrack", "regime": regime, "recs": recs, "s": s,
                           "cand": rng.choice([None, "0", "1", "x", 0, "fresh", "A", ""]),
